@@ -339,7 +339,7 @@ func c10Variants(target string) []c10Variant {
 			all = append(all, o.call("HTMLAssets", err, a)...)
 			l, err := extractor.HTMLOutlinks(item)
 			all = append(all, o.call("HTMLOutlinks", err, l)...)
-			all = append(all, o.call("extractLinksFromPage", nil, extractLinksFromPage(u))...)
+			all = append(all, o.call("extractLinksFromPage", nil, veriflib.CallAs[[]*models.URL](extractLinksFromPage, u))...)
 			return all
 		}}}
 	case "json":
@@ -514,7 +514,7 @@ func c10RunDirect(c c10Case, o *c10Outcome) {
 		urls := v.run(item, o)
 		c10Normalise(o, u, urls)
 		u.SetDocument(nil)
-		closeBody(item)
+		veriflib.Call(closeBody, item)
 	}
 }
 
@@ -523,7 +523,7 @@ func c10RunDirect(c c10Case, o *c10Outcome) {
 func c10PredictDispatch(item *models.Item) (reach []string) {
 	u := item.GetURL()
 	st := u.GetResponse().StatusCode
-	if isStatusCodeRedirect(st) {
+	if veriflib.CallAs[bool](isStatusCodeRedirect, st) {
 		if u.GetRedirects() >= config.Get().MaxRedirect {
 			return []string{"skip:max-redirect"}
 		}
@@ -658,8 +658,8 @@ func c10RunChain(c c10Case, o *c10Outcome) {
 		}
 	}
 
-	outlinks := postprocessItem(item)
-	closeBodies(seed)
+	outlinks := veriflib.CallAs[[]*models.Item](postprocessItem, item)
+	veriflib.Call(closeBodies, seed)
 	o.OKs++
 
 	var produced []*models.URL
